@@ -4,16 +4,18 @@ CONSTANTS
   FixLock = FALSE
   FixAck = FALSE
   FixStale = FALSE
-  ZlibDetects = FALSE
+  ZlibDetects = TRUE
   MaxMain = 2
-  MaxFaults = 1
+  MaxFaults = 0
   MaxBumps = 1
-  MaxHeard = 1
+  MaxHeard = 2
   MaxAge = 0
-  AllowSet = TRUE
+  AllowSet = FALSE
   HeardStale = FALSE
-  HeardAcks = TRUE
+  HeardAcks = FALSE
 CONSTRAINT Bound
+INVARIANT TypeOK
+INVARIANT ResultAsOfRead
 INVARIANT NeverMixed
 CHECK_DEADLOCK TRUE
 VIEW View
